@@ -129,6 +129,12 @@ Theorem C14_closed_polyline_source_free_partial : forall (cur : R) (vs : list RV
 Proof. exact closed_polyline_source_free. Qed.
 Print Assumptions C14_closed_polyline_source_free_partial.
 
+(* the same for B of a closed Polyline (every segment row times mu0): div B = 0 (and curl B = 0) *)
+Theorem C14_closed_polyline_B_source_free_partial : forall (mu0 cur : R) (vs : list RV3) (o d : RV3),
+  hd d vs = last vs d -> poly_clear o vs -> source_free_at (poly_sumB mu0 cur vs) o.
+Proof. exact closed_polyline_B_source_free. Qed.
+Print Assumptions C14_closed_polyline_B_source_free_partial.
+
 Example C14_polyline_nonvacuous :
   let vs := ((0, 0, 0) :: (1, 0, 0) :: (0, 1, 0) :: (0, 0, 0) :: nil)%list in
   poly_clear (0, 0, 1) vs /\ hd (0, 0, 0) vs = last vs (0, 0, 0).
